@@ -7,7 +7,7 @@ BUILD = os.path.join(VERIF, "build")
 LEAN = os.path.join(VERIF, "lean")
 HARNESS_DIR = os.path.join(VERIF, "harness")
 CARGO_TARGET = os.path.join(BUILD, "cargo-target")
-HARNESS_BIN = os.path.join(CARGO_TARGET, "release", "rml-verif-harness")
+HARNESS_BIN = os.environ.get("VERIF_HARNESS_BIN") or os.path.join(CARGO_TARGET, "release", "rml-verif-harness")
 MODEL_BIN = os.path.join(LEAN, ".lake", "build", "bin", "rmlmodel")
 M32 = 1 << 32
 
